@@ -15,7 +15,7 @@ def sh(cmd, cwd=wt, timeout=3600, env=env):
 
 
 meta = {'property': prop, 'worktree_base': sh('git rev-parse HEAD')[1].strip()}
-rc, _ = sh('git diff > patch.diff.new && test -s patch.diff.new')
+rc, _ = sh('git diff --binary > patch.diff.new && test -s patch.diff.new')
 shutil.copy(os.path.join(wt, 'patch.diff.new'), os.path.join(out, 'patch.diff'))
 shutil.copy(os.path.join(wt, 'demo.py'), os.path.join(out, 'demo.py'))
 meta['notes'] = open(os.path.join(wt, 'NOTES.txt')).read() if os.path.exists(os.path.join(wt, 'NOTES.txt')) else ''
